@@ -418,15 +418,27 @@ def seen_fields(T):
     return out
 
 
-def expected_csv(T):
+def expected_csv(T, alt=False):
     """What the table says the import must produce (None = outside the oracle's class).
-    Call after render_csv (the quoting decisions matter under KEEP_QUOTES)."""
+    Call after render_csv (the quoting decisions matter under KEEP_QUOTES).
+    alt: the other reading of the first line (a header line read as data / the first data row read
+    as header) - what must come out when the header is left to the sniffer and it votes the other way."""
     recs = seen_fields(T)
     if T.get("keep") and any(q and T["kinds"][j] == "n" for m in T["qmask"][(T["header"] is not None):]
                              for j, q in enumerate(m)):
         return None                              # a number kept between quotes is a text
     hooked = [apply_hook(T["filter"], r) for r in recs]       # the hook sees the record as parsed
-    if T["header"] is not None:
+    as_header = (T["header"] is not None) != alt
+    tkinds = T["kinds"]
+    if alt:
+        if T.get("keep") or any(h is None for h in hooked[:2]):
+            return None
+        if T["header"] is not None:              # the header line is the first example: it types the columns
+            tkinds = ["n" if (kd == "n" and is_numeric_text(c)) else "t" for kd, c in zip(tkinds, hooked[0])]
+            if T["out"] is not None and T["kinds"][T["out"]] == "n" and tkinds[T["out"]] == "t":
+                return None                      # labels and numbers in the output column
+    T = dict(T, kinds=tkinds)
+    if as_header:
         if all(h is None for h in hooked):
             return "exc"
         if hooked[0] is None:
@@ -440,6 +452,8 @@ def expected_csv(T):
         return None
     if any(T["kinds"][j] == "t" and is_numeric_text(c) for j, c in enumerate(data[0])):
         return None       # (the hook removed the first row) a text column would be taken for numbers
+    if alt and any(T["kinds"][j] == "n" and not is_numeric_text(c) for r in data for j, c in enumerate(r)):
+        return None
     k = T["out"]
     if k is not None and T["kinds"][k] == "t" and any(is_numeric_text(r[k]) for r in data):
         return None       # (the hook moved cells) a numeric looking label is read as a number
@@ -627,6 +641,19 @@ def oracle_applies(T):
     return dmode == "explicit" or T["family"] != "general"
 
 
+def expected_for(T):
+    """The table oracle for a csv2 request: one expectation, or - header left to the sniffer on a table
+    outside the class of `sniff_agrees`, delimiter explicit or recognisable - the two readings of the
+    first line, one of which must come out (`either`)."""
+    if oracle_applies(T):
+        return expected_csv(T)
+    if T.get("hmode", "explicit") != "explicit" and (T.get("dmode", "explicit") == "explicit" or T["family"] != "general"):
+        a, b = expected_csv(T), expected_csv(T, alt=True)
+        if a is not None and b is not None:
+            return {"either": [a, b]}
+    return None
+
+
 def parse_vars(s, width):
     """`ok V n {name cat rows {width tokens}}` -> [(name, cat, [tuple])]"""
     t = s.split()
@@ -722,6 +749,21 @@ def check_symbols(a, strong):
     return None
 
 
+def oracle_diff(exp, a):
+    """None when vita's answer `a` is what the table oracle expects (`exp`: a dump, "exc", or
+    {"either": [...]}), else a description of the first difference"""
+    if isinstance(exp, dict) and "either" in exp:
+        ds = [oracle_diff(e, a) for e in exp["either"]]
+        return None if None in ds else "neither reading of the first line: as declared: %s; the other way: %s" % tuple(ds)
+    if exp == "exc":
+        return None if a.startswith("exc") else "expected an exception (no data rows / a single class), got: " + a[:200]
+    got = parse_dump(a)
+    if got is None:
+        return "well-formed table rejected: %s (expected %d examples)" % (a[:200], len(exp["examples"]))
+    d = first_diff(exp, got)
+    return None if d is None else "import differs from the table (table vs vita): " + d
+
+
 def first_diff(a, b):
     for key in ("ret", "valid", "eqin", "classes", "cols"):
         if a[key] != b[key]:
@@ -779,13 +821,12 @@ def shrink_table(S, T, kind="csv", budget=70):
             ln = xrff_line(C.SplitMix(4243), T2, data)
         else:
             data = render_csv(C.SplitMix(4242), T2)
-            exp = expected_csv(T2) if oracle_applies(T2) else None
+            exp = expected_for(T2)
             ln = csv_line(T2, data)
         ans, deaths = S.cpp([ln])
         a = ans[0] if ans else "died"
         if isinstance(exp, dict):
-            got = parse_dump(a)
-            bad = got is None or first_diff(exp, got) is not None
+            bad = oracle_diff(exp, a) is not None
         elif exp == "exc":
             bad = not a.startswith("exc")
         else:
@@ -847,7 +888,8 @@ def count_params(chk, kind, T, exp, sniffed):
     f = kind + ":"
     chk.count(f + "family=" + T["family"])
     chk.count(f + "hook=" + hook_ops(T["filter"]))
-    chk.count(f + "oracle=" + ("table" if isinstance(exp, dict) else "exception" if exp == "exc" else "model-only"))
+    chk.count(f + "oracle=" + ("either-reading" if isinstance(exp, dict) and "either" in exp else
+                               "table" if isinstance(exp, dict) else "exception" if exp == "exc" else "model-only"))
     if kind == "xrff":
         x = T["xinfo"]
         chk.count(f + "class_attribute=" + x["class"])
@@ -913,9 +955,14 @@ def run(chk, replay=None):
     if "line" in rp:          # a concrete failing input: run exactly this request again
         k = rp.get("kind", rp["line"].split()[0].rstrip("2"))
         exp = rp.get("expected")
-        if isinstance(exp, dict):       # the table oracle's expectation travels with the replay
-            exp = dict(exp, cols=[(c[0], c[1], tuple(c[2])) for c in exp["cols"]],
-                       examples=[(e[0], tuple(e[1])) for e in exp["examples"]])
+        def thaw(e):                    # the table oracle's expectation travels with the replay
+            if isinstance(e, dict) and "either" in e:
+                return {"either": [thaw(x) for x in e["either"]]}
+            if isinstance(e, dict):
+                return dict(e, cols=[(c[0], c[1], tuple(c[2])) for c in e["cols"]],
+                            examples=[(x[0], tuple(x[1])) for x in e["examples"]])
+            return e
+        exp = thaw(exp)
         cases.append((k, rp["line"], None if k == "xrff" else rp["line"], exp, {"replay": True}))
     else:
         cdir = os.path.join(C.ROOT, "corpus", "C09")
@@ -942,7 +989,7 @@ def run(chk, replay=None):
                 # theorem depends on; on inputs that fit in the window the tie does not depend on it either
                 T["rows"] = T["rows"][:17]
             data = render_csv(rng, T)
-            exp = expected_csv(T) if oracle_applies(T) else None
+            exp = expected_for(T)
             ln = csv_line(T, data)
             info = {"T": T}
             if T["dmode"] != "explicit" or T["hmode"] != "explicit" or T["family"] != "general":
@@ -1038,18 +1085,17 @@ def run(chk, replay=None):
                           rep, tags=tags)
             continue
         # 1. the table oracle (independent of Lean)
-        if isinstance(exp, dict):
-            chk.count("oracle:table")
-            got = parse_dump(a)
-            d = None if got is None else first_diff(exp, got)
-            if (got is None or d) and kind in ("csv", "xrff") and "T" in info and nshrunk < 3:
+        if isinstance(exp, dict) or exp == "exc":
+            chk.count("oracle:either" if isinstance(exp, dict) and "either" in exp else
+                      "oracle:table" if isinstance(exp, dict) else "oracle:exc")
+            d = oracle_diff(exp, a)
+            if d and kind in ("csv", "xrff") and "T" in info and nshrunk < 3:
                 nshrunk += 1
                 sh = shrink_table(S, info["T"], kind)
                 if sh is not None:                      # report the reduced table instead
                     T2, ln2, a2, exp = sh
                     a = a2
-                    got = parse_dump(a)
-                    d = None if got is None or not isinstance(exp, dict) else first_diff(exp, got)
+                    d = oracle_diff(exp, a)
                     rep = {"kind": kind, "line": ln2, "cpp": a[:2000], "shrunk_from": ln[:400],
                            "file": unhx(ln2.split()[-1]).decode("latin1"),
                            "params": "delimiter %s, header %s, trim_ws %d, quoting %s, output_index %s, hook %s"
@@ -1057,18 +1103,8 @@ def run(chk, replay=None):
                                         "keep" if T2.get("keep") else "remove", T2["out"], T2["filter"])}
                     chk.count("shrunk")
             rep["expected"] = exp
-            if got is None:
-                chk.violation("well-formed table rejected: %s (expected %s)"
-                              % (a, "%d examples" % len(exp["examples"]) if isinstance(exp, dict) else exp),
-                              rep, tags=tags)
-            elif d:
-                rep["expected"] = exp
-                chk.violation("import differs from the table (table vs vita): " + d, rep, tags=tags)
-        elif exp == "exc":
-            chk.count("oracle:exc")
-            rep["expected"] = exp
-            if not a.startswith("exc"):
-                chk.violation("expected an exception (no data rows / a single class), got: " + a[:200], rep, tags=tags)
+            if d:
+                chk.violation(d, rep, tags=tags)
         elif isinstance(exp, str):
             chk.count("oracle:sniff")
             if a != exp:
